@@ -252,8 +252,11 @@ def run_half_edges(rng, res, idx):
     model = model.half()
     with warnings.catch_warnings():
         warnings.simplefilter('ignore')
-        p = KFACPreconditioner(model, factor_dtype=torch.float32, inv_dtype=torch.float32, kl_clip=kl, lr=lr, damping=rng.choice([0.001, 0.1]), compute_method=method)
-    x = torch.randn(rng.randint(2, 8), fi, generator=g).half()
+        fdt = rng.choice([torch.float32, torch.float32, torch.float16])   # float16 factors: the mean second moment fits, a plain sum would not
+        p = KFACPreconditioner(model, factor_dtype=fdt, inv_dtype=torch.float32, kl_clip=kl, lr=lr, damping=rng.choice([0.001, 0.1]), compute_method=method)
+    xs = rng.choice([1.0, 1.0, 30.0])
+    x = (torch.randn(rng.choice([rng.randint(2, 8), 256, 300]), fi, generator=g) * xs).half()
+    case['factor_dtype'], case['input_scale'], case['rows'] = str(fdt), xs, int(x.shape[0])
     model(x).float().pow(2).mean().backward()
     with torch.no_grad():   # gradients of the requested magnitude (finite in float16)
         top = max(float(q.grad.float().abs().max()) for q in model.parameters())
